@@ -43,16 +43,18 @@ ASSUMPTIONS = [
     "don't-care classes of the reference semantics are excluded; state invariants are outside the generated fragment",
 ]
 SHARD_TIMEOUT = {"quick": 900, "thorough": 5400}
+# The ANML reader costs 0.5 - 3 CPU-seconds per text of 20-30 lines (nested pyparsing infix_notation grammars): the quick tier can
+# afford ~40 texts; vk.gen.iofrag.gen_anml_case stratifies them by case index so that every class is still covered.
 BOUNDS = {
-    "quick": dict(n=224, depth=2, max_states=10, max_inst=12, read_timeout=25),
-    "thorough": dict(n=2000, depth=3, max_states=40, max_inst=24, read_timeout=60),
+    "quick": dict(n=40, shards=4, depth=2, max_states=8, max_inst=10, read_timeout=12, files=("basic.anml", "durative_goals.anml", "tils.anml")),
+    "thorough": dict(n=2400, shards=16, depth=3, max_states=40, max_inst=24, read_timeout=60, files=None),
 }
 ANML_DIR = os.path.join(_env.REPO, "unified_planning", "test", "anml")
 
 
 def plan(tier, seed):
     b = BOUNDS[tier]
-    return simple_plan(PROPERTY, tier, seed, b["n"], b["n"], shards_quick=16)
+    return simple_plan(PROPERTY, tier, seed, b["n"], b["n"], shards_quick=b["shards"], shards_thorough=BOUNDS["thorough"]["shards"])
 
 
 def run_shard(spec, res):
@@ -60,6 +62,8 @@ def run_shard(spec, res):
         run_case(key, spec["tier"], res)
     if spec["shard"] == 0:
         run_files(spec["tier"], res)
+    elif spec["tier"] == "thorough" and spec["shard"] == 1:
+        run_files(spec["tier"], res, second_half=True)
 
 
 def replay(witness, res):
@@ -73,7 +77,7 @@ def run_case(key, tier, res):
     b = BOUNDS[tier]
     res.count("tier:" + tier)
     rng = rng_for(key)
-    rec, info = iofrag.gen_anml_case(rng)
+    rec, info = iofrag.gen_anml_case(rng, int(key.rsplit(":", 1)[1]))
     explicit_env = rng.random() < 0.1
     e = _env.fresh_env()
     try:
@@ -114,6 +118,13 @@ def check_problem(pb, rec, info, wbase, b, res, explicit_env=False):
         viol("writer-raises:" + io_rt.exc_class(ex) + ":" + io_rt.origin(ex, "anml_writer.py"), f"ANMLWriter.get_problem raised {ex!r}")
         return
     text = wout.value
+    bad = io_rt.anml_invalid_identifiers(names)
+    if bad:
+        # the writer chose a name that is no ANML identifier (e.g. `a:b`, `x-y`: io/anml_writer.py `_is_valid_anml_name` is not
+        # anchored) - that is property C38's subject ("names ... are valid identifiers of the target language") and reported
+        # there; the text is not ANML, so C19 has nothing to judge
+        res.count("rejected-by-C38-defect:invalid-identifier")
+        return
     tags = io_rt.anml_problem_tags(pb, names)
     for t in tags:
         res.count("tag:" + t)
@@ -136,7 +147,9 @@ def check_problem(pb, rec, info, wbase, b, res, explicit_env=False):
             viol(f"reader-rejects-writer-output:{io_rt.exc_class(ex)}{sfx}", f"ANMLReader refused the writer's output: {ex!r}", anml=text)
             return
         if explicit_env and "environment" in str(ex):
-            mech = f"reader-raises:{io_rt.exc_class(ex)}:explicit-environment"
+            # one root cause (ANMLReader(env) builds fluents / objects / actions / variables in the global environment),
+            # whichever assertion trips first
+            mech = f"reader-raises:{type(ex).__name__}:explicit-environment"
         elif sfx:  # one string per known root cause, whatever token the parser tripped over
             mech = f"reader-raises:{type(ex).__name__}{sfx}"
         else:
@@ -178,6 +191,9 @@ def check_problem(pb, rec, info, wbase, b, res, explicit_env=False):
         res.count("bisimulated_with_changes")
         if durative or renamed:
             res.nt(h(rec))
+    if st.judged:
+        # feature classes of problems whose product was judged (applicability of every pseudo transition, durations, goal
+        # status in every reached state pair); distinct_nontrivial above additionally asks for a state-changing transition
         if renamed:
             res.count("class:renamed-items")
         if durative:
@@ -215,18 +231,22 @@ def check_problem(pb, rec, info, wbase, b, res, explicit_env=False):
         res.sample({"problem": rec if "recipe" in wbase else wbase.get("file"), "renamed_items": renamed, "durative": durative, "judged": st.judged, "state_pairs": st.pairs, "verdict": "equivalent within bounds"})
 
 
-def run_files(tier, res, only=None):
-    from unified_planning.io import ANMLReader
-
+def run_files(tier, res, only=None, second_half=False):
     b = dict(BOUNDS[tier], depth=2, max_states=6 if tier == "quick" else 12, max_inst=20)
-    for f in sorted(glob.glob(os.path.join(ANML_DIR, "*.anml"))):
+    files = sorted(glob.glob(os.path.join(ANML_DIR, "*.anml")))
+    if only is None:
+        if b.get("files"):
+            files = [f for f in files if os.path.basename(f) in b["files"]]
+        else:  # thorough: the corpus is split over two shards (parsing the larger files costs 10-25 CPU-seconds each)
+            files = files[len(files) // 2 :] if second_half else files[: len(files) // 2]
+    for f in files:
         rel = os.path.basename(f)
         if only and rel != only:
             continue
         with open(f, encoding="utf-8-sig") as fh:
             text = fh.read()
         res.count("files_tried")
-        first = io_rt.read_anml(text, _env.fresh_env(), False, timeout=60)
+        first = io_rt.read_anml(text, _env.fresh_env(), False, timeout=120)
         if not first.ok:
             res.count("files_not_parsed:" + type(first.exc).__name__)
             continue
@@ -240,48 +260,55 @@ def run_files(tier, res, only=None):
             continue
         before = res.counters.get("bisimulated", 0)
         try:
-            check_problem(pb, {"file": rel}, {"variant": "file"}, {"file": rel, "tier": tier}, b, res)
+            check_problem(pb, {"file": rel}, {"variant": "file"}, {"file": rel, "tier": tier}, dict(b, read_timeout=120), res)
         except Unsupported:
             res.count("files_skipped_unsupported")
         if res.counters.get("bisimulated", 0) > before:
             res.count("files_bisimulated")
 
 
+# every class the statement names must have been judged; quick: a few observations each (the tier can afford ~40 texts, the
+# generator stratifies them), thorough: REQUIRED_THOROUGH
 REQUIRED = {
-    "class:renamed-items": 20,
-    "class:durative": 20,
-    "class:duration:fixed": 5,
+    "class:renamed-items": 5,
+    "class:durative": 8,
+    "class:duration:fixed": 3,
+    "class:duration:L[R]": 1,
+    "class:duration:L(R)": 1,
     "class:duration:L(R]": 1,
     "class:duration:L[R)": 1,
-    "class:cond:point": 8,
-    "class:cond:()": 3,
-    "class:cond:[]": 2,
-    "class:cond:intermediate": 3,
-    "class:effect:start": 5,
-    "class:effect:end": 5,
-    "class:effect:intermediate": 3,
+    "class:cond:point": 3,
+    "class:cond:()": 1,
+    "class:cond:[]": 1,
+    "class:cond:(]": 1,
+    "class:cond:[)": 1,
+    "class:cond:intermediate": 1,
+    "class:effect:start": 3,
+    "class:effect:end": 3,
+    "class:effect:intermediate": 2,
     "class:timed-effects": 3,
-    "class:timed-goals": 2,
-    "class:nested-minus": 5,
-    "class:nested-div": 5,
-    "class:bounded-types": 10,
-    "class:object-fluents": 5,
-    "feature:conditional": 20,
-    "feature:forall": 10,
-    "durations-compared": 50,
+    "class:timed-goals": 1,
+    "class:nested-minus": 2,
+    "class:nested-div": 1,
+    "class:bounded-types": 3,
+    "feature:conditional": 12,
+    "feature:forall": 3,
+    "durations-compared": 30,
+    "bisimulated_with_changes": 8,
     "files_bisimulated": 3,
 }
+REQUIRED_THOROUGH = {k: max(10, v * 20) for k, v in REQUIRED.items() if not k.startswith("files")}
+REQUIRED_THOROUGH.update({"class:object-fluents": 50, "files_bisimulated": 10})
 
 
 def thresholds(m):
     c = m["counters"]
     thorough = bool(c.get("tier:thorough"))
     out = []
-    for k, v in REQUIRED.items():
-        need = v * (5 if thorough and not k.startswith("files") else 1)
+    for k, need in (REQUIRED_THOROUGH if thorough else REQUIRED).items():
         if c.get(k, 0) < need:
             out.append(f"fewer than {need} observations of class {k} ({c.get(k, 0)})")
-    if len(m["nontrivial"]) < (40 if not thorough else 400):
+    if len(m["nontrivial"]) < (8 if not thorough else 400):
         out.append(f"too few distinct non-trivial problems ({len(m['nontrivial'])})")
     att = c.get("read_attempts", 0)
     if att and c.get("rejected_by_reader:UPUnsupportedProblemTypeError", 0) * 2 > att:
